@@ -312,6 +312,20 @@ package app
 //@   ghostset after RequestContext.Path: vhLen = len(result)
 //@   top-ensures vhNorm && arr(r) == vhArr && off(r) == vhOff && len(r) == vhLen
 
+// C08 (index fallback): when the file to compress cannot be opened, the error of the open call itself is handed back -
+// openIndexFile tells "no such index file, try the next name or the listing" from everything else by asking the
+// operating-system error whether it means "does not exist"; a re-worded error would turn a missing index.html into 403.
+//@ func fsHandler.compressAndOpenFSFile(h, filePath) r, err
+//@   props C08
+//@   abstract
+//@   noinline
+//@   panics
+//@   modifies cofBad, cofErr
+//@   ghostset-at-entry cofBad = false
+//@   ghostset after Open: cofBad = (result1 != nil)
+//@   ghostset after Open: cofErr = result1
+//@   top-ensures cofBad ==> err == cofErr
+
 // C08 (directory requests): a listing is generated only when the handler was configured to generate index pages,
 // and index files are opened with the same compression decision as the request.
 //@ immutable fsHandler.generateIndexPages :: configuration copied from FS when the handler is built
@@ -332,12 +346,14 @@ package app
 //@ ghost var mtB0 int scratch
 //@ ghost var mtB1 int scratch
 //@ ghost var mtSeen int
+//@ ghost var cofBad bool
+//@ ghost var cofErr int
 //@ func fsHandler.openFSFile(h, filePath, mustCompress) r, err
 //@   props C08
 //@   abstract
 //@   noinline
 //@   panics
-//@   modifies mtA0, mtA1, mtB0, mtB1, mtSeen
+//@   modifies mtA0, mtA1, mtB0, mtB1, mtSeen, cofBad, cofErr
 //@   ghostset-at-entry mtSeen = 0
 //@   ghostset after ModTime#0: mtA0 = result0
 //@   ghostset after ModTime#0: mtA1 = result1
@@ -346,6 +362,10 @@ package app
 //@   ghostset after ModTime#1: mtB1 = result1
 //@   ghostset after ModTime#1: mtSeen = 2
 //@   assert before newFSFile: mustCompress ==> mtSeen == 2 && mtA0 == mtB0 && mtA1 == mtB1 && arg3
+//@   ghostset-at-entry cofBad = false
+//@   ghostset after Open!: cofBad = (result1 != nil)
+//@   ghostset after Open!: cofErr = result1
+//@   top-ensures cofBad && !mustCompress ==> err == cofErr
 
 // C08 (which reader serves a cached entry): a generated directory listing has no backing file and is always
 // served by the small-file reader; the big-file reader is chosen only for file-backed entries, so its
